@@ -268,6 +268,8 @@ func c07SpecSkip(st syntax.VerifLexState, op string) bool {
 	switch op[0] {
 	case 'q':
 		return st.Err != ""
+	case 'z':
+		return st.R == syntax.VerifRuneEOF // the cursor is past the buffer: p.bs[p.bsp:] panics
 	case 'e':
 		return st.R != syntax.VerifRuneEOF && st.R != syntax.VerifEscNewl && len(st.Lit) < st.W
 	}
@@ -325,8 +327,12 @@ func c07RunDrop(input string, sched []int, eofWith bool, stop string, ops []stri
 	v := syntax.NewVerifLexer(rd, syntax.LangBash, stop)
 	var out []string
 	var done []string
+	halted := false // the stop-word test fired: reading on is outside the protocol
 	for _, op := range ops {
 		if (spec && c07SpecSkip(v.State(), op)) || (!spec && c07TieSkip(v.State(), op)) || (drop != nil && drop(v.State(), op)) {
+			continue
+		}
+		if spec && halted && strings.ContainsRune("rkptzsf", rune(op[0])) {
 			continue
 		}
 		done = append(done, op)
@@ -339,6 +345,9 @@ func c07RunDrop(input string, sched []int, eofWith bool, stop string, ops []stri
 				out = append(out, "!panic")
 			}
 			return strings.Join(out, " "), done
+		}
+		if res == "s1" {
+			halted = true
 		}
 		if spec {
 			out = append(out, res)
@@ -431,7 +440,7 @@ func c07Scheds(r *Rand, n int) [][]int {
 	return out
 }
 
-func c07Ops(r *Rand, inputLen, padLen int, spec bool, allowBq bool) []string {
+func c07Ops(r *Rand, inputLen, padLen int, spec bool) []string {
 	var ops []string
 	if padLen > 8 && r.Chance(85) {
 		// travel to the neighbourhood of the buffer edge first
@@ -448,9 +457,6 @@ func c07Ops(r *Rand, inputLen, padLen int, spec bool, allowBq bool) []string {
 		case x < 50:
 			op = "p"
 		case x < 57:
-			if spec {
-				ops = append(ops, "p") // protocol: peekTwo only right after peek
-			}
 			op = "t"
 		case x < 60:
 			op = "z"
@@ -483,12 +489,8 @@ func c07Ops(r *Rand, inputLen, padLen int, spec bool, allowBq bool) []string {
 		}
 		if spec {
 			switch op[0] {
-			case 'z', 's', 'f':
-				continue // outside the protocol (known findings C07-zshnumrange / C07-stopat; fill is internal)
-			case 'b':
-				if !allowBq {
-					continue
-				}
+			case 'f':
+				continue // fill is internal to the primitives
 			case 'n':
 				if op == "nc" {
 					if !lastWasRune {
@@ -505,8 +507,6 @@ func c07Ops(r *Rand, inputLen, padLen int, spec bool, allowBq bool) []string {
 	ops = append(ops, "q")
 	return ops
 }
-
-var c07BsRun = regexp.MustCompile(`\\\x00*\\`)
 
 // ---------------------------------------------------------------------------------------------
 // search leg: Parse through the public API under different schedules
@@ -542,25 +542,13 @@ func c07LangByName(n string) syntax.LangVariant {
 	return syntax.LangBash
 }
 
-// Exclusions of the search generator = exactly the regions of the open known findings.
-var (
-	// C07-zshnumrange: zsh inputs containing a numeric range glob `<digits-digits>`.
-	c07ZshRange = regexp.MustCompile(`<[0-9]*-[0-9]*>`)
-	// C07-peektwo-zsh-prefix: zsh inputs with a doubled expansion prefix `==`, `~~`, `^^` after a `$`.
-	c07ZshDouble = regexp.MustCompile(`\$[^\n]*(==|~~|\^\^)`)
-	// C07-bquote-backslash-run: a backquote somewhere and ≥5 backslashes in a row (NULs ignored).
-	c07Bs5 = regexp.MustCompile(`(\\\x00*){5}`)
-)
+// Exclusion of the search generator = exactly the region of the open known finding
+// C07-zshnumrange-long: zsh inputs with a `<` followed by 60 or more digits / dashes.
+var c07ZshLong = regexp.MustCompile(`<[0-9-]{60,}`)
 
 func c07Excluded(src string, l syntax.LangVariant) string {
-	if l == syntax.LangZsh && c07ZshRange.MatchString(src) {
-		return "excl-zshrange"
-	}
-	if l == syntax.LangZsh && c07ZshDouble.MatchString(src) {
-		return "excl-zshdouble"
-	}
-	if strings.Contains(src, "`") && c07Bs5.MatchString(src) {
-		return "excl-bquote-bs5"
+	if l == syntax.LangZsh && c07ZshLong.MatchString(src) {
+		return "excl-zshrange-long"
 	}
 	return ""
 }
@@ -621,7 +609,9 @@ func c07SearchInput(c *Ctx, r *Rand, src string, l syntax.LangVariant, stop stri
 	n := len(src)
 	kinds := 0
 	ok := c07ParseCase(c, src, l, stop, c07Ones(n), false, base)
-	kinds++
+	ok = ok && c07ParseCase(c, src, l, stop, nil, true, base) // iotest.DataErrReader
+	ok = ok && c07ParseCase(c, src, l, stop, c07Ones(n), true, base)
+	kinds += 3
 	// every single split point (at most 64, sampled around the buffer edges when longer)
 	var splits []int
 	if n-1 <= 64 {
@@ -665,7 +655,7 @@ func c07SearchInput(c *Ctx, r *Rand, src string, l syntax.LangVariant, stop stri
 			rc = append(rc, k)
 			left -= k
 		}
-		ok = c07ParseCase(c, src, l, stop, rc, false, base)
+		ok = c07ParseCase(c, src, l, stop, rc, r.Bool(), base)
 		kinds++
 	}
 	nontrivial := strings.ContainsAny(src, "\\`$\"'<(\x00\r") || n > syntax.VerifBufSize-16
@@ -746,17 +736,75 @@ func c07Replay(c *Ctx, line string) {
 	}
 }
 
+// c07Lookahead: inputs whose lexing needs a two-byte lookahead or a lookahead loop.
+var c07Lookahead = []struct {
+	lang syntax.LangVariant
+	src  string
+}{
+	{syntax.LangBash, "echo foo\\\r\nbar\n"}, {syntax.LangBash, "x\\\r\ny"}, {syntax.LangPOSIX, "a \\\r\n b\n"},
+	{syntax.LangBash, "@() { :; }\n"}, {syntax.LangBash, "a+() { :; }\n"}, {syntax.LangBash, "echo @(a|b) +(c)\n"},
+	{syntax.LangBash, "echo @() x\n"}, {syntax.LangMirBSDKorn, "echo *(x) !(y)\n"},
+	{syntax.LangZsh, "echo ${=foo} ${~foo} ${^foo}\n"}, {syntax.LangZsh, "echo ${==foo} ${~~foo} ${^^foo} $=x\n"},
+	{syntax.LangZsh, "echo <-> <1-10> foo<5->.txt <2-3\n"}, {syntax.LangBash, "echo `echo \\\\\\\\\\$x`\n"},
+	{syntax.LangBash, "a=(b c)\n"}, {syntax.LangBash, "echo \xc3\xa9\xe2\x82\xac\n"},
+}
+
+// c07LookaheadBattery runs, on every run, (a) the tie with a peekTwo / zshNumRange / stop-word op
+// after every rune for every single split point (so that the lookahead happens with p.bsp > 0 and a
+// read ending right before the byte looked at: `\` CR | LF, `@(` | `)`, `${=` | `foo}`), and
+// (b) Parse for every single split, every pair of adjacent splits, one-byte and EOF-with-data.
+func c07LookaheadBattery(c *Ctx) {
+	if c.Shard != 0 {
+		return
+	}
+	for _, in := range c07Lookahead {
+		n := len(in.src)
+		var ops []string
+		for i := 0; i <= n && i < 40; i++ {
+			ops = append(ops, "t", "q", "r")
+		}
+		ops2 := []string{"b1,1"}
+		for i := 0; i <= n && i < 40; i++ {
+			ops2 = append(ops2, "r", "z", "t")
+		}
+		for at := 1; at < n; at++ {
+			for _, sc := range [][]int{{at}, {at, 1}, {at, 0, 1, 1}} {
+				for _, o := range [][]string{ops, ops2} {
+					ew := 0
+					if at%2 == 0 {
+						ew = 1
+					}
+					got, done := c07Run(in.src, sc, ew == 1, "", o, false)
+					c.Op(fmt.Sprintf("run %s %s %d - %s", hx(in.src), c07SchedStr(sc), ew, strings.Join(done, " ")), got)
+				}
+			}
+			got, done := c07Run(in.src, []int{at}, false, "", ops, true)
+			c.Op(fmt.Sprintf("specrun %s - %s", hx(in.src), strings.Join(done, " ")), got)
+		}
+		c.Case("battery-tie/"+in.src, true, "battery-tie")
+		base := c07Dump(strings.NewReader(in.src), in.lang, "")
+		for at := 1; at < n; at++ {
+			c07ParseCase(c, in.src, in.lang, "", []int{at}, false, base)
+			c07ParseCase(c, in.src, in.lang, "", []int{at, 1}, at%2 == 0, base)
+		}
+		c07ParseCase(c, in.src, in.lang, "", c07Ones(n), false, base)
+		c07ParseCase(c, in.src, in.lang, "", nil, true, base)
+		c.Case("battery-parse/"+in.src, true, "battery-parse")
+	}
+}
+
 func c07(c *Ctx) {
 	c.Rule = "tie: random byte strings over {NUL, CR, LF, CRLF, backslash, backslash-newline, backquote, $, quotes, <->, digits, " +
 		"multi-byte and invalid UTF-8}, a third padded to the 1 KiB buffer edge, × random op sequences over the byte-source primitives " +
 		"× schedules {single read, one byte, one split, random chunks with zero-length reads, zero reads + split at the buffer edge} " +
 		"× EOF with/without the last data; spec: protocol-respecting op sequences vs the unchunked machine; search: Parse " +
 		"(typedjson with positions, or error) of repository test inputs and generated programs, padded around the buffer edge, " +
-		"5 variants, one-byte / ≤64 single splits / 3 random chunkings vs single read; non-trivial = input has a metacharacter of the " +
+		"5 variants, optional StopAt words, one-byte / ≤64 single splits / 3 random chunkings / EOF with the last data vs single read; a fixed battery of two-byte-lookahead inputs under every split; non-trivial = input has a metacharacter of the " +
 		"byte layer or crosses the buffer edge; distinct by (variant, input)"
 	for _, l := range c.CorpusLines() {
 		c07Replay(c, l)
 	}
+	c07LookaheadBattery(c)
 	r := c.R
 	t0 := time.Now()
 	defer func() { c.Extra["search_seconds"] = int(time.Since(t0).Seconds()) }()
@@ -765,12 +813,12 @@ func c07(c *Ctx) {
 		input, padLen := c07Input(r, c.Thorough())
 		stop := ""
 		if r.Chance(25) {
-			stop = r.Pick([]string{"$$", "a", "é", "\\x", "$$$$"})
+			stop = r.Pick([]string{"$$", "a", "é", "\\x", "$$$$", "€", "a\n"})
 		}
 		eofWith := r.Chance(30)
 		scheds := c07Scheds(r, len(input))
 		// select the ops on the single-read schedule: panicking ops are mostly dropped
-		_, ops := c07RunDrop(input, scheds[0], eofWith, stop, c07Ops(r, len(input), padLen, false, true), false,
+		_, ops := c07RunDrop(input, scheds[0], eofWith, stop, c07Ops(r, len(input), padLen, false), false,
 			func(st syntax.VerifLexState, op string) bool { return c07Panicky(st, op) && r.Chance(93) })
 		for si, sc := range scheds {
 			got, done := c07Run(input, sc, eofWith, stop, ops, false)
@@ -790,12 +838,11 @@ func c07(c *Ctx) {
 			}
 		}
 		// spec stream: protocol-respecting program, any schedule, EOF by a separate read
-		allowBq := !c07BsRun.MatchString(input)
-		sops := c07Ops(r, len(input), padLen, true, allowBq)
+		sops := c07Ops(r, len(input), padLen, true)
 		scs := c07Scheds(r, len(input))
 		sc := scs[r.Intn(len(scs))]
-		got, sdone := c07Run(input, sc, false, "", sops, true)
-		c.Op(fmt.Sprintf("specrun %s - %s", hx(input), strings.Join(sdone, " ")), got)
+		got, sdone := c07Run(input, sc, r.Chance(40), stop, sops, true)
+		c.Op(fmt.Sprintf("specrun %s %s %s", hx(input), hx(stop), strings.Join(sdone, " ")), got)
 		c.Case("spec/"+input+"/"+strings.Join(sops, " "), len(input) > 0, "spec")
 	}
 	c.Extra["tie_seconds"] = int(time.Since(t0).Seconds())
@@ -844,11 +891,9 @@ func c07(c *Ctx) {
 		if !c.Thorough() {
 			langs = []syntax.LangVariant{allLangs[sr.Intn(len(allLangs))], allLangs[sr.Intn(len(allLangs))]}
 		}
-		// StopAt only with single-byte ASCII stop words (no lookahead needed; longer ones are the
-		// open finding C07-stopat-no-lookahead)
 		stop := ""
-		if sr.Chance(15) {
-			stop = sr.Pick([]string{"%", "@", "}", "x"})
+		if sr.Chance(20) {
+			stop = sr.Pick([]string{"%", "@", "}", "x", "$$", "é", "ab", "#!"})
 			tags = append(tags, "search-stopat")
 		}
 		for _, l := range langs {
